@@ -799,6 +799,16 @@ def r15_accumulate_on_scatter(facts):
             continue
         loops = s["loops"]
         env = _aliases(facts.root(body))
+        # `buf[e] = buf[e] + v` is an accumulating store written out
+        rhs = strip(s.get("rhs")) if s.get("rhs") is not None else None
+        if rhs is not None and ((rhs.get("k") == "Binary" and rhs["op"] in ("Add", "Sub"))
+                                or (rhs.get("k") == "Call" and callee(rhs) in ("core::ops::arith::Add::add", "core::ops::arith::Sub::sub"))):
+            sides = [rhs["l"], rhs["r"]] if rhs.get("k") == "Binary" else rhs["args"]
+            lhs_txt = show(peel(s["lhs"]))
+            cand = sides[:1] if (rhs.get("op") == "Sub" or callee(rhs) == "core::ops::arith::Sub::sub") else sides
+            if any(show(peel(x)) == lhs_txt for x in cand):
+                c.ok(inst, where, "accumulating store written as `place = place + value`; %s" % role)
+                continue
         ok, why = False, ""
         if idx is None:
             v = var_of(s["lhs"])
